@@ -40,7 +40,9 @@ R.invariant(
         # everything contiguous has been delivered: the byte at the delivery position is never buffered
         "not self._ranges.gview[self._buffer_start]",
         # the buffer window ends at the highest offset seen (bounds the bytes held for reassembly, C07)
-        "self._buffer_start + len(self._buffer) == self.highest_offset",
+        # (after an accepted reset the mark is the final size the peer declared, which may lie beyond the last byte buffered)
+        "self._buffer_start + len(self._buffer) <= self.highest_offset",
+        "implies(not self.g_reset, self._buffer_start + len(self._buffer) == self.highest_offset)",
         # a final size fixed by a FIN is never above the highest offset seen
         "self.g_reset or self._final_size is None or self._final_size <= self.highest_offset",
         # once every byte up to the final size has been delivered the receive half is finished (the end marker was handed
@@ -55,16 +57,19 @@ R.invariant(
 R.contract(
     "QuicStreamReceiver.handle_reset",
     raises={"FinalSizeError": "self._final_size is not None and final_size != self._final_size"},
-    modifies=["self._final_size", "self.is_finished", "self.g_reset"],
+    modifies=["self._final_size", "self.is_finished", "self.g_reset", "self.highest_offset"],
     ensures=[
         "self._final_size == final_size",
         "self.is_finished",
-        "self.highest_offset == old(self.highest_offset)",
+        # the bytes up to the final size count as received (RFC 9000 4.5): the high-water mark the connection charges
+        # flow control against moves to the final size, so that a repeated RESET_STREAM is charged nothing (C07 finding,
+        # repaired in /repo: the mark used to stay put and a duplicate was charged again)
+        "self.highest_offset == max(old(self.highest_offset), final_size)",
         "self._buffer_start == old(self._buffer_start)",
         "self.g_reset",
     ],
     ghost_exit={"self.g_reset": "True"},
-    on_raise={"FinalSizeError": ["self._final_size == old(self._final_size)", "self.is_finished == old(self.is_finished)", "self.g_reset == old(self.g_reset)"]},
+    on_raise={"FinalSizeError": ["self._final_size == old(self._final_size)", "self.is_finished == old(self.is_finished)", "self.g_reset == old(self.g_reset)", "self.highest_offset == old(self.highest_offset)"]},
     prop=["C07", "C10"],
 )
 
@@ -117,7 +122,7 @@ R.contract(
     ghost_exit={"self.gM": "amap(lambda x: at(d0, x - o0) if lo <= x < fend else old(self.gM)[x])"},
     # proof hint: the model is updated, and the buffer/ranges re-tied to it, BEFORE the delivered prefix is pulled out
     ghost_at={"data = self._pull_data()": {"self.gM": "amap(lambda x: at(d0, x - o0) if lo <= x < fend else old(self.gM)[x])"}},
-    cuts={"data = self._pull_data()": ["rx_window(self)", "rx_bytes(self)", "self._buffer_start == s0", "self._buffer_start + len(self._buffer) == self.highest_offset"]},
+    cuts={"data = self._pull_data()": ["rx_window(self)", "rx_bytes(self)", "self._buffer_start == s0", "self._buffer_start + len(self._buffer) <= self.highest_offset", "implies(not self.g_reset, self._buffer_start + len(self._buffer) == self.highest_offset)"]},
     ensures=[
         "implies(fin0, self._final_size == fend)",
         "implies(not fin0, self._final_size == old(self._final_size))",
@@ -155,6 +160,7 @@ R.field_types(
     highest_offset="int",
     is_finished="bool",
     reset_pending="bool",
+    stopped_by_peer="bool",
     _acked="RangeSet",
     _acked_fin="bool",
     _buffer="bytearray",
